@@ -156,6 +156,16 @@ def rule_faults():
     f("times-negative-max", lambda doc: _first_item_times(doc, {"min": -3, "max": -1}, True))
     f("times-inverted", lambda doc: _first_item_times(doc, {"min": 3, "max": 1}, False))
     f("times-inverted-sibling", lambda doc: _first_item_times(doc, {"min": 2, "max": 1}, True))
+    # ... the same ill-formed bounds on nodes that are captures (a whole-instruction capture as an item, an operand capture and a
+    # register-family capture written as mappings so that they can carry `times`)
+    def _prepend(doc, item):
+        d = copy.deepcopy(doc)
+        d["pattern"] = [item] + list(d["pattern"])
+        return d
+    f("times-negative-on-instruction-capture", lambda doc: _prepend(doc, {"&anyinst": {"times": -1}}))
+    f("times-inverted-on-instruction-capture", lambda doc: _prepend(doc, {"&anyinst": [], "times": {"min": 3, "max": 1}}))
+    f("times-negative-on-operand-capture", lambda doc: _prepend(doc, {"mov": [{"&anyop": [], "times": -1}]}))
+    f("times-inverted-on-register-capture", lambda doc: _prepend(doc, {"mov": [{"&genreg-t": [], "times": {"min": 2, "max": 1}}]}))
     f("times-non-numeric", lambda doc: _first_item_times(doc, "many", False))
     f("times-non-numeric-sibling", lambda doc: _first_item_times(doc, "many", True))
     f("undefined-macro-with-definitions", lambda doc: {**copy.deepcopy(doc), "macros": (doc.get("macros") or []) + [{"name": "@defd", "pattern": "ret"}],
